@@ -192,6 +192,40 @@ def vstackGet {α} [Zero α] : List (Arr2 α) → Nat → Nat → α
 def vstack {α} [Zero α] (l : List (Arr2 α)) : Arr2 α :=
   ⟨(l.map (·.rows)).sum, (l.head?.map (·.cols)).getD 0, vstackGet l⟩
 
+/-- `np.triu_indices(n)`: row-major upper triangle as a pair of index lists -/
+def triuIndices (n : Int) : List Int × List Int :=
+  let ps := (List.range n.toNat).flatMap (fun r => (List.range (n.toNat - r)).map (fun k => (r, r + k)))
+  (ps.map (fun p => (p.1 : Int)), ps.map (fun p => (p.2 : Int)))
+
+/-- `_full_matrix_size(m)`: `int((np.sqrt(8 m + 1) - 1) / 2)`.  MODELLED, not translated (a floating-point square root):
+for a real square root `s ≥ 1`, `⌊(s - 1)/2⌋ = (⌊s⌋ - 1) div 2`, so the integer square root gives the same value. -/
+def fullMatrixSize (m : Int) : Int := ((Nat.sqrt (8 * m.toNat + 1) - 1) / 2 : Nat)
+
+/-- `M[rows, cols]` (fancy indexing with two index lists): a vector -/
+def Arr2.getAt2 {α} (M : Arr2 α) (rc : List Int × List Int) : Arr1 α :=
+  ⟨rc.1.length, fun k => M.get (idx M.rows (rc.1.getD k 0)) (idx M.cols (rc.2.getD k 0))⟩
+
+/-- `M[rows, cols] = v` for a vector `v` (entry `k` of `v` goes to `(rows[k], cols[k])`; for repeated positions NumPy
+keeps the last write - not modelled: the first match is used; `np.triu_indices` never repeats a position) -/
+def Arr2.setAt2 {α} (M : Arr2 α) (rc : List Int × List Int) (v : Arr1 α) : Arr2 α :=
+  ⟨M.rows, M.cols, fun r c =>
+    match (rc.1.zip rc.2).findIdx? (fun p => idx M.rows p.1 == r && idx M.cols p.2 == c) with
+    | some k => v.get k
+    | none => M.get r c⟩
+
+/-- `M.T` -/
+def Arr2.transpose {α} (M : Arr2 α) : Arr2 α := ⟨M.cols, M.rows, fun r c => M.get c r⟩
+
+/-- `M.diagonal()` -/
+def Arr2.diagonal {α} (M : Arr2 α) : Arr1 α := ⟨min M.rows M.cols, fun k => M.get k k⟩
+
+/-- `np.diag(v)` -/
+def diagOf {α} [Zero α] (v : Arr1 α) : Arr2 α := ⟨v.n, v.n, fun r c => if r = c then v.get r else 0⟩
+
+/-- elementwise `A + B`, `A - B` of two matrices -/
+def Arr2.add {α} [Add α] (A B : Arr2 α) : Arr2 α := ⟨A.rows, A.cols, fun r c => A.get r c + B.get r c⟩
+def Arr2.sub {α} [Sub α] (A B : Arr2 α) : Arr2 α := ⟨A.rows, A.cols, fun r c => A.get r c - B.get r c⟩
+
 /-- a sparsity weight: one number or an `NW × NW` array (`isinstance` dispatch in `compute_lambda_sum`) -/
 inductive Lambda (α : Type) where
   | scalar (v : α)
